@@ -55,20 +55,32 @@ def admissible_grids(npts, maxP=12, include_serial=True):
 
 
 def pick_grids(rng, npts, k, maxP=12):
+    """k distinct non-serial process grids, weighted towards (1,n), (n,1), square
+    and non-dividing ones but reaching every admissible grid."""
     grids = admissible_grids(npts, maxP, include_serial=False)
-    rng.shuffle(grids)
-    # favour (1,n), (n,1), square and non-dividing ones
-    def score(g):
-        s = 0
-        if 1 in g:
-            s += 1
-        if g[0] == g[1]:
-            s += 1
-        if npts[0] % g[0] or npts[2] % g[1] or npts[3] % g[1] or npts[3] % g[0]:
-            s += 2
-        return -s + rng.random() * 3
-    grids.sort(key=score)
-    return grids[:k]
+    out = []
+    while grids and len(out) < k:
+        wts = []
+        for g in grids:
+            w = 1.0
+            if 1 in g:
+                w += 1.0
+            if g[0] == g[1]:
+                w += 1.0
+            if npts[0] % g[0] or npts[2] % g[1] or npts[3] % g[1] or npts[3] % g[0]:
+                w += 1.0
+            wts.append(w)
+        x = rng.random() * sum(wts)
+        acc = 0.0
+        for g, w in zip(grids, wts):
+            acc += w
+            if x <= acc:
+                out.append(g)
+                grids.remove(g)
+                break
+        else:
+            out.append(grids.pop())
+    return out
 
 
 @contextlib.contextmanager
